@@ -323,8 +323,15 @@ class NodeModel(Engine):
         key = canon.short(cl)
         if key in self.classes:
             return self.classes[key]
-        req = [p for p, d in cl['params'] if d == 'req']
-        opt = [(p, d) for p, d in cl['params'] if d != 'req']
+        params, used = [], set()
+        for p, d in cl['params']:
+            ident = p.replace('-', '_')
+            if ident in used or not ident.isidentifier():
+                continue    # two keys mapping to one identifier: no such class exists
+            used.add(ident)
+            params.append((p, d))
+        req = [p for p, d in params if d == 'req']
+        opt = [(p, d) for p, d in params if d != 'req']
         dvals = [pyval(d) for p, d in opt]
         sig = ['self'] + [p.replace('-', '_') for p in req] + [
             '{}=_d[{}]'.format(p.replace('-', '_'), i) for i, (p, d) in enumerate(opt)]
